@@ -283,6 +283,8 @@ class Client(BaseComponent):
 
     @handler('write')
     def write(self, data):
+        if self._sock.fileno() < 0:
+            return  # closed (a write that raced with close): keep nothing for the next connection
         if not self._poller.isWriting(self._sock):
             self._poller.addWriter(self, self._sock)
         self._buffer.append(data)
